@@ -71,7 +71,8 @@ def gen_ops(rng, n):
 def gen_case(rng):
     return {'list0': [rng.randrange(-3, 9) for _ in range(rng.randrange(0, 5))],
             'dict0': [[k, rng.randrange(-3, 9)] for k in rng.sample(range(6), rng.randrange(0, 4))],
-            'value0': rng.randrange(-3, 9), 'reqs': gen_ops(rng, rng.choice([5, 15, 30, 60]))}
+            'value0': rng.randrange(-3, 9), 'reqs': gen_ops(rng, rng.choice([5, 15, 30, 60])),
+            'authkey': rng.random() < 0.4}
 
 
 class Routes:
@@ -83,10 +84,15 @@ class Routes:
         self.main = {0: m.list(list(case['list0'])), 1: m.dict(dict((k, v) for k, v in case['dict0'])),
                      2: m.Value('i', case['value0']), 3: m.Factory(), 4: m.Namespace()}
         self.copy = {}
+        # with a manager key of its own, another process could only connect if it were given that key: the second-process
+        # and the unpickled-copy routes are used with the default key only (standard multiprocessing behaviour, not the subject here)
+        self.use_helper = not case.get('authkey')
         self.cq, self.aq = Queue(), Queue()
-        self.proc = Process(target=c14_procs.helper_main, args=(self.cq, self.aq), name='c14-helper')
-        self.proc.start()
-        assert self.aq.get(timeout=30) == 'ready'
+        self.proc = None
+        if self.use_helper:
+            self.proc = Process(target=c14_procs.helper_main, args=(self.cq, self.aq), name='c14-helper')
+            self.proc.start()
+            assert self.aq.get(timeout=30) == 'ready'
         for oid in list(self.main):
             self.share(oid)
         # the hosted custom object holds proxies to the hosted list and dict: calls made through them run inside the server
@@ -105,12 +111,18 @@ class Routes:
             self.rq.put(self.mod.do_op(self.main[oid], op))
 
     def share(self, oid):
+        if not self.use_helper:
+            self.copy[oid] = self.main[oid]     # a pickle made outside process start-up carries no key either
+            return
         data = pickle.dumps(self.main[oid])
         self.copy[oid] = pickle.loads(data)
-        self.cq.put(['adopt', oid, pickle.dumps(self.main[oid]).hex()])
-        assert self.aq.get(timeout=30) == 'ok'
+        if self.use_helper:
+            self.cq.put(['adopt', oid, pickle.dumps(self.main[oid]).hex()])
+            assert self.aq.get(timeout=30) == 'ok'
 
     def call(self, oid, op, route, new_id):
+        if route == 'helper' and not self.use_helper:
+            route = 'copy'
         if route == 'helper':
             self.cq.put(['call', oid, op, new_id])
             ans = self.aq.get(timeout=30)
@@ -133,12 +145,13 @@ class Routes:
 
     def close(self):
         self.tq.put(None)
-        self.cq.put(['exit'])
-        try:
-            self.aq.get(timeout=10)
-        except Exception:  # noqa
-            pass
-        self.proc.join(10)
+        if self.proc is not None:
+            self.cq.put(['exit'])
+            try:
+                self.aq.get(timeout=10)
+            except Exception:  # noqa
+                pass
+            self.proc.join(10)
 
 
 def run_case(case):
@@ -151,7 +164,7 @@ def run_case(case):
     local[3].adopt('0', local[0])
     local[3].adopt('1', local[1])
     obs, ref, extra = [], [], []
-    with ServerProcess() as m:
+    with (ServerProcess(authkey=b'c14-custom-key') if case.get('authkey') else ServerProcess()) as m:
         routes = Routes(m, case)
         try:
             nxt = 5
@@ -173,6 +186,13 @@ def run_case(case):
                 if oid in (2, 3, 4):
                     continue
                 final[str(oid)] = [routes.call(oid, ['len'], 'main', None), c14_procs.do_op(local[oid], ['len'])[0]]
+            # a proxy stored in a hosted container and read back is a live proxy to the same hosted object
+            holder = m.list()
+            holder.append(routes.main[1])
+            back = holder[0]
+            extra.append([['proxy read back from a hosted list', 'dlen'], c14_procs.do_op(back, ['dlen'])[0], c14_procs.do_op(local[1], ['dlen'])[0]])
+            extra.append([['proxy read back from a hosted list', 'dcopy'], c14_procs.do_op(back, ['dcopy'])[0], c14_procs.do_op(local[1], ['dcopy'])[0]])
+            del back, holder
             # a second manager class hosts another class under the same typeid, in the same client process
             from harness.c13_procs import Factory2, ServerProcess2
             with ServerProcess2() as m2:
